@@ -1268,10 +1268,47 @@ struct FGen {
     // counting loop on b0..b3 if the shape is the template
     if (f.blocks.size() < 4)
       return;
+    if (f.blocks[0].succs.size() != 1 || f.blocks[0].succs[0] != "b1" ||
+        f.blocks[1].succs.size() != 2)
+      return;
+    if (ints_wr.size() >= 2 && r.chance(1, 3) && f.block("b2")) {
+      // alternating relational loop: y := c; x := y + d; loop { x := y + 1 | x := y - 1 |
+      // y := x + 1 | y := x - 1 }. |x - y| <= 1 is stable while the bounds of x and y grow
+      // alternately: a relational widening whose left operand is (re)closed never
+      // stabilises on this shape.
+      std::string x = ints_wr[0], y = ints_wr[1];
+      if (r.coin())
+        std::swap(x, y);
+      Stmt iy = mk(Op::ASSIGN);
+      iy.v = {y};
+      iy.e = {LinExp(mpz_class((long)r.range(-2, 2)))};
+      Stmt ix = mk(Op::ASSIGN);
+      ix.v = {x};
+      ix.e = {LinExp::var(y)};
+      ix.e[0].cst = mpz_class((long)r.range(-1, 1));
+      f.blocks[0].stmts.push_back(iy);
+      f.blocks[0].stmts.push_back(ix);
+      std::vector<std::string> back = f.block("b2")->succs;
+      int nalt = (int)r.range(2, 4);
+      std::vector<std::string> alts;
+      for (int k = 0; k < nalt; k++) {
+        Block nb;
+        nb.label = "balt" + std::to_string(k);
+        Stmt u = mk(Op::ASSIGN);
+        bool upd_x = (k % 2 == 0);
+        u.v = {upd_x ? x : y};
+        u.e = {LinExp::var(upd_x ? y : x)};
+        u.e[0].cst = mpz_class(k < 2 ? 1 : -1);
+        nb.stmts.push_back(u);
+        nb.succs = back;
+        alts.push_back(nb.label);
+        f.blocks.push_back(nb);
+      }
+      f.block("b2")->succs = alts; // (pointer re-fetched: push_back may have reallocated)
+      return;
+    }
     auto &b0 = f.blocks[0];
     auto &b1 = f.blocks[1];
-    if (b0.succs.size() != 1 || b0.succs[0] != "b1" || b1.succs.size() != 2)
-      return;
     std::string i = iwr();
     Stmt init = mk(Op::ASSIGN);
     init.v = {i};
